@@ -473,7 +473,12 @@ func writeUnionConverters(w *formatting.IndentedWriter, unionType *dsl.Generaliz
 					for i, c := range unionType.Cases {
 						fmt.Fprintf(w, "case %d:\n", i)
 						w.Indented(func() {
-							fmt.Fprintf(w, "j = ordered_json{ {\"%s\", std::get<%s>(value)} };\n", c.Tag, common.TypeSyntax(c.Type))
+							if c.Type == nil {
+								// null is written as null, with or without tags
+								w.WriteStringln("j = nullptr;")
+							} else {
+								fmt.Fprintf(w, "j = ordered_json{ {\"%s\", std::get<%s>(value)} };\n", c.Tag, common.TypeSyntax(c.Type))
+							}
 							w.WriteStringln("break;")
 						})
 					}
@@ -503,9 +508,20 @@ func writeUnionConverters(w *formatting.IndentedWriter, unionType *dsl.Generaliz
 
 				w.WriteStringln("throw std::runtime_error(\"Invalid union value\");")
 			} else {
+				if unionType.Cases[0].Type == nil {
+					w.WriteStringln("if (j.is_null()) {")
+					w.Indented(func() {
+						w.WriteStringln("value = std::monostate{};")
+						w.WriteStringln("return;")
+					})
+					w.WriteStringln("}")
+				}
 				w.WriteStringln("auto it = j.begin();")
 				w.WriteStringln("std::string tag = it.key();")
 				for _, v := range unionType.Cases {
+					if v.Type == nil {
+						continue
+					}
 					fmt.Fprintf(w, "if (tag == \"%s\") {\n", v.Tag)
 					w.Indented(func() {
 						fmt.Fprintf(w, "value = it.value().get<%s>();\n", common.TypeSyntax(v.Type))
